@@ -16,6 +16,27 @@ CLAIMED = {
         note="CubicSpline(+derivative) is an oracle with contract HasDerivAt (monitored); real arithmetic stands for doubles; T>0, TMin<TMax, "
              "dp and dp+de nonzero at the boundaries are explicit hypotheses checked on every object used.",
         technique="Lean 4 proof over regenerated model + translator validation + real-code property monitor", ref="4/C10"),
+    "C17": dict(
+        text="Lean 4 theorems (Props.C17, Props.C17H) about grid.py/grid3Scales.py formulas regenerated each run: for all three "
+             "directions of both grids HasDerivAt(map) = reported Jacobian on the open domain; Jacobians > 0 hence StrictMonoOn; "
+             "three-scale position map: Jacobian >= (1-smoothing) L/(r(1-chi^2)) > 0 for smoothing<1, centre slope = L/r, "
+             "origin -> wallCenter; simple grid: compactify/decompactify mutually inverse; rescale history = fresh grid "
+             "(parameter-state model, exact correspondence with real Grid3Scales objects). Float translator validation and "
+             "evaluation of the property on real grids every run.",
+        note="Inherited Grid3Scales.compactify is provably NOT the inverse (known finding C17-E, Lean theorem "
+             "grid3_inherited_compactify_not_inverse); smoothing>=1 fixed in /repo (4a3f383). Float noise of the three-scale map near "
+             "chi=+-1 is outside the real-number model.",
+        technique="Lean 4 proof over regenerated model + translator validation + exact state-model correspondence", ref="4/C17"),
+    "C19": dict(
+        text="Lean 4 theorems (Props.C19, 35 theorems): moment conditions of every row of the eight stencil tables (regenerated from "
+             "helpers.py each run) by decide +kernel; generic binomial-theorem lemma => derivative/gradient/hessian exact on all "
+             "polynomials up to (#points-1) (central rows one more; mixed Hessian: total degree <= order+1, with proved tightness "
+             "witnesses); evaluation points stay within bounds for half-lines and for two-sided bounds of width >= #points*h (sharp); "
+             "central row chosen whenever it fits; linearity; shape functions. Exact (Rat) correspondence of the row-selection model "
+             "with helpers.derivative on dyadic inputs and exactness/in-bounds/shape search on the real helpers each run.",
+        note="narrow two-sided bounds escape: known finding C19-F1 (Lean: narrow_bounds_escape, width_hypothesis_sharp); h>0 needed; "
+             "the (x+dx)-x trick and float rounding are outside the model.",
+        technique="Lean 4 proof (decide +kernel over regenerated tables + generic lemma) + exact model correspondence", ref="4/C19"),
 }
 
 NOT_YET = "check not built yet in this round (design in DESIGN.md section 4); listed here until its Lean module and harness are committed"
